@@ -183,7 +183,7 @@ structure StatsR where
   min : Rat
   max : Rat
   avg : Rat
-  deriving Repr
+  deriving Repr, DecidableEq
 
 /-- `statistics.mean`: exact rational sum, divided exactly, converted to a double once -/
 def meanD (s : List Rat) : Rat := Dbl.fl (s.sum / (s.length : Rat))
@@ -279,12 +279,14 @@ structure Summary where
   median : Option Rat
   max : Option Rat
   unit : Option Str
+  deriving DecidableEq
 
 /-- `single_latency` result: `none` = `{}`; percentile entries carry the encoded key -/
 structure Latency where
   pcts : List (Str × Rat)
   mean : Option Rat
   unit : Option Str
+  deriving DecidableEq
 
 structure Task where
   name : Str
@@ -301,16 +303,30 @@ structure OpMetrics where
   processingTime : Option Latency
   errorRate : Rat
   duration : Option Rat
+  deriving DecidableEq
 
-/-- Python truthiness of a number-or-None -/
+/-- `summary_stats` given the normal-type values and the unit:
+    `if mean is not None and median is not None and stats` -/
+def summaryOf (vs : List Rat) (unit : Option Str) : Except Err Summary :=
+  match medianOf vs with
+  | .error e => .error e
+  | .ok median =>
+    let mean := meanOf vs
+    match statsOf vs with
+    | some st =>
+      if mean.isSome && median.isSome then .ok ⟨some st.min, mean, median, some st.max, unit⟩
+      else .ok ⟨none, none, none, none, unit⟩
+    | none => .ok ⟨none, none, none, none, unit⟩
+
+/-- Python truthiness of a number-or-None (used by the pinned code only) -/
 def truthy (o : Option Rat) : Bool :=
   match o with
   | none => false
   | some q => q != 0
 
-/-- `summary_stats` given the normal-type values and the unit:
-    `if mean and median and stats` — a mean or median equal to 0 takes the all-`None` branch -/
-def summaryOf (vs : List Rat) (unit : Option Str) : Except Err Summary :=
+/-- HISTORICAL: `summary_stats` of the pinned code before the `fix:` commit, `if mean and median and stats` —
+    a mean or median equal to 0 took the all-`None` branch. Not used by the driver. -/
+def summaryOfPinned (vs : List Rat) (unit : Option Str) : Except Err Summary :=
   match medianOf vs with
   | .error e => .error e
   | .ok median =>
@@ -321,11 +337,16 @@ def summaryOf (vs : List Rat) (unit : Option Str) : Except Err Summary :=
       else .ok ⟨none, none, none, none, unit⟩
     | none => .ok ⟨none, none, none, none, unit⟩
 
+/-- `sample_size = stats["count"] if stats else 0` -/
+def countOf (vs : List Rat) : Nat :=
+  match statsOf vs with
+  | some st => st.count
+  | none => 0
+
 /-- `single_latency` given the normal-type values and the unit -/
 def latencyOf (tbl : PTable) (vs : List Rat) (unit : Option Str) : Except Err (Option Latency) :=
-  let n := match statsOf vs with | some st => st.count | none => 0
-  if n > 0 then
-    match pctsFor tbl n with
+  if countOf vs > 0 then
+    match pctsFor tbl (countOf vs) with
     | .error e => .error e
     | .ok pk =>
       match percentilesOf vs (pk.map Prod.fst) with
